@@ -236,12 +236,13 @@ def run_layered(chk, repo, rule='R13.7'):
     else:
         base = ['orbit.set_eccentricity', 'world.set_obliquity', 'world.set_spin_frequency', 'orbit.set_semi_major_axis', 'mantle.set_temperature', 'crust.set_temperature', 'core.set_temperature']
         pairs = [(a_, b_) for a_ in base for b_ in base if a_ != b_]
-    seqs = [(m_,) for m_ in singles] + pairs
+    seqs = [(m_,) for m_ in singles] + pairs + [('mantle.set_temperature', 'orbit.set_eccentricity', 'again: mantle.set_temperature'), ('orbit.set_eccentricity', 'crust.set_temperature', 'again: orbit.set_eccentricity')]
     # the same histories with the repository's own model holders (SolidViscosity, LiquidViscosity, PartialMelt, ComplexCompliance: calculate / _calculate / properties
     # interpreted; only the numeric law inside is an uninterpreted pure function): what a holder keeps between calls is part of the history
     temp_singles = [m_ for m_ in singles if 'temperature' in m_]
     real_seqs = [(m_,) for m_ in temp_singles] + [('mantle.set_temperature', 'mantle.set_temperature'), ('mantle.set_temperature', 'orbit.set_eccentricity'),
-                                                   ('world.set_spin_frequency', 'crust.set_temperature'), ('crust.set_temperature', 'mantle.set_state(temperature)')]
+                                                   ('world.set_spin_frequency', 'crust.set_temperature'), ('crust.set_temperature', 'mantle.set_state(temperature)'),
+                                                   ('mantle.set_temperature', 'mantle.set_temperature', 'again: mantle.set_temperature')]
     if chk.tier != 'quick':
         real_seqs += [(a_, b_) for a_ in temp_singles for b_ in temp_singles if (a_, b_) not in real_seqs] + [(m_,) for m_ in singles if m_ not in temp_singles]
     nseq = 0
@@ -270,9 +271,12 @@ def run_layered(chk, repo, rule='R13.7'):
                 it = mk_interp(fork)
                 s = build(repo, it, st0, obliq_on, layer_names, real_holders=real)
                 full_init(it, s, st0, layer_names)
+                sent = {}
                 for i, mname in enumerate(seq):
-                    key, fn_ = M[mname]
-                    newv = X.atom(f'{key}_new{i + 1}', 'pos' if key[0] in 'eaT' else 'real')
+                    again = mname.startswith('again: ')          # the value of an earlier step is sent once more (A ; B ; A)
+                    key, fn_ = M[mname[7:] if again else mname]
+                    newv = sent[mname[7:]] if again else X.atom(f'{key}_new{i + 1}', 'pos' if key[0] in 'eaT' else 'real')
+                    sent[mname] = newv
                     fn_(it, s, newv)
                     final[key] = newv
                 return exposed(s)
